@@ -186,6 +186,11 @@ def hManageDeployment (inp out : Json) : Except String Findings := do
       let fs := match resolveIntOrPercent ru.maxUnavailable n, resolveIntOrPercent ru.maxPodSchedulerFailure n with
         | some mu, some ms => spec fs "C03.holds(budget,cap,unavailable-first)" (Spec.C03.holds tg pj.wall es mu ms del)
         | _, _ => fs
+      -- C02 progress: cooperative update situation, positive budget, not paused/frozen ⇒ the sync
+      -- deletes at least one outdated pod (theorems C02_budget_positive, C02_progress_plan)
+      let nonNegSched := match ru.maxPodSchedulerFailure with | some v => decide (0 ≤ v.val) | none => false
+      let fs := spec fs "C02.progress-update" (!(Spec.C02.coopUpdate c && Spec.C02.positiveBudget ru.maxUnavailable
+                  && nonNegSched && !o.isPaused && !o.isFrozen) || !o.delete.isEmpty)
       let fs := spec fs "C08.paused-no-update-delete" (!(o.isPaused || o.isFrozen) || o.delete.isEmpty)
       let fs := spec fs "C08.frozen-no-create" (!o.isFrozen || o.create.isEmpty)
       let fs := spec fs "C08.flags" (o.isPaused == (SMap.get? p.edsAnnotations K.rollingUpdatePausedAnnot == some "true")
@@ -419,12 +424,14 @@ def hCreatePod (inp out : Json) : Except String Findings := do
   let pod : Pod ← get out "pod"
   let err : Bool ← get out "err"
   let same : Bool ← get out "compareSame"
+  let sameStored : Bool ← get out "compareStored"
   let readBack : String ← get out "readBack"
   let perts : List PerturbJ ← get out "perturbations"
   let m := createPod rs (some item.node) item.setting aff
   let fs := diff fs "pod" (podStr pod) (podStr m.pod)
   let fs := diff fs "err" err m.overrideError
   let fs := diff fs "compareSame" same (comparePod rs.templateGeneration pod item)
+  let fs := diff fs "compareStored" sameStored (comparePod rs.templateGeneration pod item)
   let fs := diff fs "readBack" readBack (nodeNameFromAffinity pod.affRequired)
   let fs := perts.foldl (fun fs pt => diff fs s!"compare[{pt.kind}]" pt.result (comparePod pt.ers.templateGeneration pod pt.item)) fs
   -- specification on the implementation's pod
@@ -437,6 +444,7 @@ def hCreatePod (inp out : Json) : Except String Findings := do
   let fs := spec fs "C10.meta" (Spec.C10.metaOk pod rs)
   let fs := if distinctNames then spec fs "C10.resources" (Spec.C10.resources pod rs.template item.node item.setting) else fs
   let fs := spec fs "C10.roundtrip" same
+  let fs := spec fs "C10.roundtrip-stored" sameStored
   let fs := perts.foldl (fun fs pt =>
       if pt.kind == "template" then
         spec fs "C10.detects-template" (pt.ers.templateGeneration == rs.templateGeneration || !pt.result)
@@ -709,6 +717,7 @@ structure ErsOutJ where
   statusUpdate : Option ERSStatus
   order : List String
   foreign : List String
+  appliedPods : Nat
   deriving FromJson
 
 def hErsReconcile (inp out : Json) : Except String Findings := do
@@ -777,7 +786,8 @@ def hErsReconcile (inp out : Json) : Except String Findings := do
     | some c, some f => isDefaulted d.strategy d.templateName && c.lastUpdate + f > now + sec
     | _, _ => false
   let fs := spec fs "C09.gate-no-write" (!gated || o.order.isEmpty)
-  let wrote := !(o.creates.isEmpty && o.deleted.isEmpty)
+  -- "a sync that creates or deletes pods": at least one pod write was applied by the API server
+  let wrote := o.appliedPods > 0
   let fs := spec fs "C09.stamp" (!wrote || (match o.statusUpdate with
       | some s => (match findCond s.conds "LastFullSync" with | some c => c.lastUpdate == now | none => false)
       | none => false))
@@ -949,6 +959,18 @@ def handlers : List (String × (Json → Json → Except String Findings)) := [
   ("concurrent_reconcile", hConcurrent)
 ]
 
+/-- Under a fault the step's writes are a subset of the planned ones: safety clauses still apply,
+"this write must happen" clauses and the exact status do not.  The C09 stamp is owed whenever the
+process survived (an API error on a pod write does not excuse it: the status write still happens). -/
+def underFault (inp : Json) (fsk : Findings) : Findings :=
+  let faulted : Bool := (inp.getObjValAs? Bool "faulted").toOption.getD false
+  let crashed : Bool := (inp.getObjValAs? Bool "crashed").toOption.getD false
+  if !faulted then fsk else
+  fsk.filter (fun f =>
+    let completeness := (["SPEC C07.rollback-writes", "SPEC C14.", "SPEC C16.no-default-loop"].any (fun pre => f.startsWith pre))
+      || (crashed && f.startsWith "SPEC C09.stamp")
+    !(f.startsWith "DIFF" || completeness))
+
 /-- a scenario line carries the steps of one simulation; each step is checked by its own handler.
 Steps run under an injected fault keep their specification findings but not their DIFFs (the model
 describes the fault-free writes). -/
@@ -962,16 +984,11 @@ def hScenario (_inp out : Json) : Except String Findings := do
     match h with
     | none => fs := fs.push s!"DIFF step{k} unknown fn {st.fn}"
     | some h =>
-      let faulted : Bool := (st.«in».getObjValAs? Bool "faulted").toOption.getD false
       match h st.«in» st.out with
       | .error e => fs := fs.push s!"DIFF step{k} bad-op {e}"
       | .ok fsk =>
-        for f in fsk do
-          -- under a fault the step's writes are a subset of the planned ones: safety clauses still
-          -- apply, "this write must happen" clauses and the exact status do not
-          let completeness := ["SPEC C07.rollback-writes", "SPEC C09.stamp", "SPEC C14.", "SPEC C16.no-default-loop"].any (fun pre => f.startsWith pre)
-          if !(faulted && (f.startsWith "DIFF" || completeness)) then
-            fs := fs.push (f ++ s!" @step{k}[{st.op}]")
+        for f in underFault st.«in» fsk do
+          fs := fs.push (f ++ s!" @step{k}[{st.op}]")
     k := k + 1
   return fs
 
@@ -988,6 +1005,7 @@ def handleLine (line : String) : String :=
       | none => throw s!"unknown fn {fn}"
       | some h =>
         let fs ← h inp out
+        let fs := if fn == "scenario" then fs else underFault inp fs
         pure (id, fs) : Except String (Nat × Findings)) with
     | .error e => s!"bad-op {e}"
     | .ok (id, fs) =>
